@@ -141,6 +141,40 @@ def consume(entry, text, work, encoding):
 
 
 STYLES = [{"in_attr": False}, {"in_attr": True}, {"in_attr": False, "pad": 3000}, {"in_attr": True, "pad": 70000}]
+# off-standard document shapes (still "any document" in the property's sense): for these only the refusal of entity
+# declarations and the absence of fetches / hangs is asserted - what a benign document of that shape parses to is not
+SHAPES = [{"shape": "no-namespace"}, {"shape": "legacy-namespace", "in_attr": True}, {"shape": "nul-tail"}, {"shape": "nul-tail-sector", "in_attr": True},
+          {"shape": "nul-mid"}, {"shape": "bom"}, {"shape": "ws-tail", "in_attr": True}, {"shape": "pad-64k-1", "pad": 65536 - 60},
+          {"shape": "pad-64k+1", "pad": 65536 + 1, "in_attr": True}, {"shape": "pad-1m", "pad": 1 << 20}, {"shape": "version-1.1"},
+          {"shape": "standalone"}, {"shape": "crlf", "in_attr": True}, {"shape": "upper-root-comment"}]
+
+
+def reshape(text, shape, rng):
+    if shape == "no-namespace":
+        return text.replace(' xmlns="http://www.virtualbox.org/"', "").replace('xmlns="http://schemas.dmtf.org/ovf/envelope/1" ', "")
+    if shape == "legacy-namespace":
+        return text.replace("http://www.virtualbox.org/", "http://www.innotek.de/VirtualBox-settings").replace(
+            'xmlns="http://schemas.dmtf.org/ovf/envelope/1"', 'xmlns="http://schemas.dmtf.org/ovf/envelope/2"')
+    if shape == "nul-tail":
+        return text + "\x00" * rng.choice([1, 2, 7])
+    if shape == "nul-tail-sector":
+        return text + "\x00" * (-len(text.encode()) % 4096 or 4096)
+    if shape == "nul-mid":
+        k = text.rindex("</")
+        return text[:k] + "\x00" + text[k:]
+    if shape == "bom":
+        return "\ufeff" + text
+    if shape == "ws-tail":
+        return text + "\n\n  \t\n"
+    if shape == "version-1.1":
+        return text.replace('<?xml version="1.0"?>', '<?xml version="1.1"?>')
+    if shape == "standalone":
+        return text.replace('<?xml version="1.0"?>', '<?xml version="1.0" encoding="UTF-8" standalone="no"?>')
+    if shape == "crlf":
+        return text.replace("\n", "\r\n")
+    if shape == "upper-root-comment":
+        return text.replace("<!DOCTYPE", "<!-- <!DOCTYPE x> -->\n<!DOCTYPE", 1)
+    return text
 
 
 def run(ctx):
@@ -167,10 +201,15 @@ def run(ctx):
     try:
         for st in sts:
             feats = set(st["feats"])
-            for style in (STYLES if thorough else rng.sample(STYLES, 2)):
+            for style in ((STYLES + SHAPES) if thorough else rng.sample(STYLES, 2) + rng.sample(SHAPES, 3)):
                 encs = ["utf-8"] + (["utf-16", "latin-1"] if st["entry"] == "hdd" else [])
                 for enc in (encs if thorough else [rng.choice(encs)]):
                     text, benign_ok = render(st["entry"], feats, secret, rng, style)
+                    shaped = "shape" in style
+                    if shaped:
+                        text = reshape(text, style["shape"], rng)
+                        if enc != "utf-8" and "nul" in style["shape"]:
+                            enc = "utf-8"
                     ctx.case(key=(st["entry"], tuple(sorted(feats)), repr(style), enc), nontrivial=bool(feats),
                              sample={"entry": st["entry"], "features": sorted(feats), "style": style, "spec_verdict": st["verdict"]}
                              if feats == {"extfile", "nested"} else None)
@@ -200,6 +239,8 @@ def run(ctx):
                         ctx.violation({**a, "fail": "resources"}, {**det, "peak": peak, "verdict": verdict})
                     elif st["verdict"] == "refused" and verdict != "refused":
                         ctx.violation({**a, "fail": "entity-accepted"}, det)
+                    elif shaped:
+                        pass  # benign documents of off-standard shapes: nothing further asserted
                     elif enc != "utf-8" and verdict == "refused":
                         pass  # the descriptor reader only promises UTF-8 text; refusing other encodings is not an entity issue
                     elif st["verdict"] == "parsed" and "extdtd" not in feats and (verdict != "parsed" or not benign_ok(res)):
